@@ -12,12 +12,14 @@ SELFTEST = {"Kind": "selftest", "Mask": 0, "Cols": 6, "Rows": 3, "Rounds": [
     {"Chain": [{"M": "new", "C": 1, "R": 1, "W": 2, "H": 1}], "Op": {"K": "set", "C": 0, "R": 0}},
     {"Chain": [{"M": "new", "C": 0, "R": 0, "W": 3, "H": 2}], "Op": {"K": "print", "Segs": ["ab"]}},
     {"Chain": [{"M": "new", "C": 1, "R": 1, "W": 3, "H": 1}], "Op": {"K": "set0", "C": 0, "R": 0}},
+    {"Chain": [{"M": "new", "C": 1, "R": 1, "W": 3, "H": 1}],
+     "Op": {"K": "style", "C": 1, "R": 0, "Pre": [{"K": "w", "C": 2, "R": 1}]}},
 ]}
 
 
 def binding_selftest(c, drv, specs):
     """Vacuity guard: a known-good trace must be accepted, and the same trace with ONE recorded
-    field changed must be rejected (four different fields)."""
+    field changed must be rejected (five different fields)."""
     rp = os.path.join(c.scratch, "selftest.json")
     json.dump(SELFTEST, open(rp, "w"))
     td = c.drive(drv, "c11", sub="selftest", replay=rp, shards=1)
@@ -35,7 +37,12 @@ def binding_selftest(c, drv, specs):
     def m_auto(chk):
         chk[3]["mk"][1] = 1               # the logged width of the cell left to be measured is not the terminal's
 
-    variants = [("good", None), ("chain", m_chain), ("coord", m_coord), ("width", m_width), ("auto", m_auto)]
+    def m_glyph(chk):
+        chk[4]["chain"][0]["w"] -= 1      # the logged window ends between the two columns of the glyph it restyled
+        # (rejected only if the second column of a glyph is seen to change with the glyph's style)
+
+    variants = [("good", None), ("chain", m_chain), ("coord", m_coord), ("width", m_width), ("auto", m_auto),
+                ("glyph", m_glyph)]
     d = os.path.join(c.scratch, "selftest-variants")
     os.makedirs(d, exist_ok=True)
     for i, (name, mutate) in enumerate(variants):      # one shard per variant, scenario id = variant index
@@ -60,8 +67,8 @@ def binding_selftest(c, drv, specs):
     for i, (name, _) in enumerate(variants[1:], 1):
         if i not in hit:
             raise vcheck.Inconclusive("binding self-test: corrupted field '%s' was accepted (vacuous trace spec)" % name)
-    c.notes.append("binding self-test: reference trace accepted; 4/4 single-field corruptions (chain size, coordinate, "
-                   "cluster width, width of a cell left to be measured) rejected")
+    c.notes.append("binding self-test: reference trace accepted; 5/5 single-field corruptions (chain size, coordinate, "
+                   "cluster width, width of a cell left to be measured, window of a restyled two-cell glyph) rejected")
     return True
 
 
@@ -109,6 +116,12 @@ def main(c):
         "fact: code points added up without Unicode core, Unicode cluster width with it); a wider-than-one cell is accepted "
         "iff all its columns are; one that is not is only required not to escape; of a fill with a wider-than-one cell only "
         "containment, the content of what changed and the glyph in the clip's first column are demanded",
+        "set style is also exercised on a screen that already holds two-cell glyphs (and empty cells): a cell under the "
+        "second column of a glyph displays the glyph in the glyph's style and changes with it; a glyph that is not wholly "
+        "inside the window's clip is only required not to change outside it (nothing changing at all is accepted); one that "
+        "is, addressed by its first column, is restyled whole; addressed by its second column, restyled whole or not at all; "
+        "set cell / fill / clear / text over a glyph that is already on the screen are not exercised (not judged: "
+        "overwriting one half of a glyph that straddles the window's edge cannot leave the other half as it was)",
         "text clusters whose width depends on the terminal ('☺'+VS16, a letter + U+FF9E) are judged with the width of the "
         "scenario's terminal; on explicit-width terminals only those that Unicode measures wider than one cell",
     ]
@@ -168,4 +181,6 @@ def main(c):
              "the right edge of windows ending inside, on and beyond the screen's edge and cut by a parent (5x3 screen, quick: "
              "seeded third); strings over {narrow, space, wide, emoji+VS16, +U+FF9E} holding a cluster whose width depends on "
              "the terminal are enumerated up to length 3 (quick: seeded quarter; thorough also a seeded half of length 4) for every helper, width 1..5 and the four "
-             "width-measuring capability sets; distinct = distinct (tree, call) pairs")
+             "width-measuring capability sets; set style at every column of the edge windows (5x3 screen) over a row holding a "
+             "two-cell glyph at every position (quick: seeded 30%) and at seeded coordinates through seeded trees; "
+             "distinct = distinct (tree, call) pairs")
